@@ -173,3 +173,48 @@ pub fn split_client(results: Vec<ClientSessionResult>) -> ClientOut {
 pub fn lib_amf_brief(v: &rml_amf0::Amf0Value) -> String {
     ra::brief(std::slice::from_ref(v))
 }
+
+// ------------------------------------------------------------------------------------------------
+// Recording of everything a session returned (used by C18) and clock scripts
+
+#[derive(Clone, Debug)]
+pub struct PacketRec {
+    pub bytes: Vec<u8>,
+    pub droppable: bool,
+    /// Some(flag) when the packet came from a send/publish audio/video call that asked for `flag`
+    pub asked: Option<bool>,
+    /// index of the operation that returned it (usize::MAX = constructor)
+    pub call: usize,
+    /// the message stream id the application call or the accepted request named, if any
+    pub expect_msid: Option<u32>,
+    /// session age in ms (sum of clock shifts) when the packet was returned
+    pub age: u64,
+}
+
+#[derive(Clone, Debug, Default, serde::Serialize, serde::Deserialize)]
+pub struct Clock {
+    /// age of the session right after construction (ms)
+    pub age0: u64,
+    /// (position as a fraction of the history, shift in ms) applied before that operation
+    pub jumps: Vec<(u16, u64)>,
+}
+
+impl Clock {
+    pub fn shift_before(&self, idx: usize, n_ops: usize) -> u64 {
+        let mut total = 0u64;
+        for (f, ms) in &self.jumps {
+            if ((*f as usize) * n_ops) >> 16 == idx {
+                total += *ms;
+            }
+        }
+        total
+    }
+}
+
+#[derive(Clone, Debug, Default)]
+pub struct Tag {
+    pub call: usize,
+    pub asked: Option<bool>,
+    pub expect_msid: Option<u32>,
+    pub age: u64,
+}
